@@ -8,7 +8,7 @@ from ..harness import Part
 from ..signatures import close
 
 PROPERTY_ID = "C01"
-RULE = ("Hypothesis build programs (<= 8 items per circuit, nesting <= 2, 4 qubits, <= 60 unrolled operations) over all "
+RULE = ("Hypothesis build programs (<= 8 items per circuit, nesting <= 2; part deep_nesting: <= 3 items per circuit, nesting <= 5; 4 qubits, <= 60 unrolled operations) over all "
         "26 operation kinds, explicit relations of the three types to earlier operations or sub-circuits on ~40 % of the "
         "items, fixed / registry / global durations from {0,.25,.5,1,1.5,2,3,7} incl. zero, repetition counts 1..3 on "
         "sub-circuits, optional global-duration override; interpreted through DeclarativeCircuit.add. Oracle: (1) an "
@@ -54,6 +54,18 @@ def cfg_dense():
     return P.GenCfg(kinds=["Wait", "Wait", "Rx180", "CPhase", "Barrier", "DispersiveMeasure", "Reset", "VirtualPark"], nq=3,
                     max_items=4, max_depth=2, p_sub=55, p_rel=25, max_reps=3, top_reps=False, globals_=False,
                     max_total_leaves=40)
+
+
+def cfg_deep():
+    """Few items per circuit, nesting down to five levels, counts at every level."""
+    return P.GenCfg(nq=3, max_items=3, max_depth=5, p_sub=60, p_rel=35, max_reps=2, top_reps=False, globals_=True,
+                    global_zero=True, max_total_leaves=48, min_sub_items=1)
+
+
+def strat_deep():
+    from hypothesis import strategies as st
+    return st.fixed_dictionaries({"program": P.program_strategy(cfg_deep()), "pre_list": st.booleans(),
+                                  "second": second_configuration(), "peek": st.sampled_from(PEEKS)})
 
 
 def strat_dense():
@@ -178,5 +190,6 @@ def body(case, ctx):
 
 
 def parts():
-    return [Part("dense_nesting", body, strategy=strat_dense, quick=1200, thorough=4000),
+    return [Part("deep_nesting", body, strategy=strat_deep, quick=500, thorough=3000),
+            Part("dense_nesting", body, strategy=strat_dense, quick=1200, thorough=4000),
         Part("programs", body, strategy=strat, quick=1500, thorough=6000)]
